@@ -65,7 +65,13 @@ PAGE_TITLES = [
     (10, "Infobox x"), (10, "Foo"), (14, "Cats and dogs"), (6, "Foo bar.png"), (6, "Émile.jpg"),
     (2, "Someone/sub page"), (4, "About"), (1, "Foo"), (12, "Contents"), (828, "String"),
     (100, "Science"),
+    # a colon whose prefix is NOT a namespace: the title must resolve per lookup under the default
+    # namespace of that lookup (article / template / category / image lookups interleaved)
+    (0, "2001: A Space Odyssey"), (0, "2001: Cast"), (10, "2001: Cast"), (14, "2001: Films"), (10, "Star Wars: Cast"),
+    (0, "Wait... what"), (0, "St..Peter-Ording"),
 ]
+COLON_FAMILY = [(0, "2001: A Space Odyssey"), (0, "2001: Cast"), (10, "2001: Cast"), (14, "2001: Films")]
+COLON_IMAGES = ["2001: Poster.png", "2001: Cast.png"]
 
 # image names (without the namespace prefix).  Inside the statement's alphabet (letters, digits,
 # spaces, - . ~) unless listed in IMAGE_OUTSIDE; many are chosen to collide under a sloppy
@@ -81,8 +87,13 @@ IMAGE_GROUPS = [
     ["\U00010348.png", "~66376~.png", "66376.png", "~66376.png"],
     ["Ünï cödé.jpg", "Uni code.jpg", "Ünï code.jpg", "Üni cödé.jpg"],
     ["~foo.png", "Foo.png", "-foo.png", ".foo.png", "~~foo.png"],
+    # consecutive dots inside / at the start / before the extension: legal titles, and the file names
+    # derived from them contain ".." (must survive zipping and extraction)
+    ["Wait... what.png", "Wait.. what.png", "Wait. what.png", "Wait what.png", "St..Peter-Ording.jpg", "St.Peter-Ording.jpg",
+     "..dots.png", "...dots.png", "Dots...png", "Dots..png", "Dots.png"],
 ]
-IMAGE_OUTSIDE = ["Foo (1), bar.png", "Q&A 'x'.png", "100% pure.png", "\U0001F600 smile.png"]   # equivalence clause only
+IMAGE_OUTSIDE = ["Foo (1), bar.png", "Q&A 'x'.png", "100% pure.png", "\U0001F600 smile.png",
+                 "2001: Poster.png", "2001: Cast.png"]   # equivalence clause only
 _ALPHA = re.compile(r"^[\w \-.~]+$", re.UNICODE)
 
 
@@ -214,7 +225,7 @@ def check_palettes(ctx=None):
             problems.append("duplicate image names")
         for n in allimg:
             f = fq(st, 6, n)
-            if h.splitname(f, 6)[2] != f or re.search(r"%[0-9a-fA-F]{2}", f) or "/" in n or ":" in n:
+            if h.splitname(f, 6)[2] != f or re.search(r"%[0-9a-fA-F]{2}", f) or "/" in n or (":" in n and n not in IMAGE_OUTSIDE):
                 problems.append("image title not canonical on %s: %r" % (lang, f))
             if (n in IMAGE_OUTSIDE) == in_alphabet(n):
                 problems.append("image %r is on the wrong side of the alphabet rule" % n)
@@ -258,6 +269,11 @@ def concretise(case, seed, variant=0, dir_fraction=0.25):
         # confusable neighbours: same name in different namespaces / case variants
         pool = [t for t in PAGE_TITLES if t[1] in ("Foo", "Foo bar", "Foo Bar", "Ab", "A b", "Foo bar.png")]
         titles = rng.sample(pool, min(ntitles, len(pool))) + titles[len(pool):]
+    family = rng.random() < 0.2
+    if family:
+        # titles sharing a non-namespace prefix before a colon, in different namespaces
+        fam = rng.sample(COLON_FAMILY, min(ntitles, len(COLON_FAMILY)))
+        titles = fam + [t for t in titles if t not in fam][:ntitles - len(fam)]
     revids = rng.choice(REVIDS)[:max(nrev, 1)]
     if rng.random() < 0.25:
         revids = sorted(rng.sample(range(1, 2 ** 33), max(nrev, 1)))
@@ -285,6 +301,10 @@ def concretise(case, seed, variant=0, dir_fraction=0.25):
     names = rng.sample(group, min(nimgslots, len(group)))
     if rng.random() < 0.2 and nimgslots:
         names[rng.randrange(len(names))] = rng.choice(IMAGE_OUTSIDE)
+    if family and nimgslots:
+        for k, n in enumerate(rng.sample(COLON_IMAGES, min(len(COLON_IMAGES), nimgslots, 1 + rng.randrange(2)))):
+            if n not in names:
+                names[k] = n
     imgns = rng.choice([0, 0, 1]) if st["lang"] == "de" else 0      # local name, or the English canonical one
     images = []
     for k in range(nimg):
@@ -305,15 +325,18 @@ def concretise(case, seed, variant=0, dir_fraction=0.25):
         ns, name = titles[t - 1]
         e, d = case["bt"][t - 1], case["btdev"][t - 1]
         reads.append({"op": "title", "how": "get_page", "arg": tfq[t - 1], "exp": e, "dev": d, "abs": t, "spelling": "get_page/canon"})
-        for lab, arg, dns in spellings(st, ns, name, rng, limit=14):
+        for lab, arg, dns in spellings(st, ns, name, rng, limit=None if family else 14):
             reads.append({"op": "title", "how": "normalize", "arg": arg, "defaultns": dns, "exp": e, "dev": d, "abs": t, "spelling": lab})
     for k in range(1, nimgslots + 1):
         if k > len(names):
             break
         exp = case["img"][k - 1]
-        for lab, arg, _dns in spellings(st, 6, names[k - 1], rng, limit=12):
+        for lab, arg, _dns in spellings(st, 6, names[k - 1], rng, limit=None if family else 12):
             reads.append({"op": "image", "arg": arg, "exp": exp, "abs": k, "spelling": lab,
                           "claim": "equivalent" if exp else "apart"})
+    # one opened archive answers the whole sequence, in a seeded order that interleaves revision,
+    # title and image lookups: Archive.tla's ReadsArePure says no lookup may influence a later one
+    rng.shuffle(reads)
     return {"site": st["lang"], "zipper": rng.choice(["zip_dir", "create_zip"]), "open_dir": rng.random() < dir_fraction,
             "writes": writes,
             "redirects": redirects, "images": images, "image_slots": [fq(st, 6, n, imgns) for n in names],
